@@ -1032,4 +1032,18 @@ def progAgreeB (gs : Grids) : OState → NState → List Stmt → Bool
 /-- `agree? gs p`: no `shaped` of the program is applied to an object the two routes tag differently -/
 def agree? (gs : Grids) (p : List Stmt) : Bool := progAgreeB gs {} {} p
 
+/-- index of the first statement at which the check fails (`none`: it passes); reported by the driver next
+to `agree?` so that the harness can compare it with where the running styles first hand different kinds
+of object to `.shaped` -/
+def progDisagreeAt (gs : Grids) : OState → NState → List Stmt → Nat → Option Nat
+  | _, _, [], _ => none
+  | so, sn, st :: rest, i =>
+    if stmtAgreeB gs so sn st then
+      match stepO gs so st, stepN gs sn st with
+      | .ok so', .ok sn' => progDisagreeAt gs so' sn' rest (i + 1)
+      | _, _ => none
+    else some i
+
+def disagreeAt (gs : Grids) (p : List Stmt) : Option Nat := progDisagreeAt gs {} {} p 0
+
 end HcipyVerif.FieldProg
